@@ -51,6 +51,9 @@ type lcSess struct {
 	busy     int32 // reader is inside dispatchRaw / cleanUp
 	notsent  []string
 	sc       *lcScn
+	curKind  atomic.Value // kind of the request the reader is inside
+	wexit    int32        // the writer has returned
+	dead     int32        // the reader is parked for ever inside the server (reported); the session is abandoned
 }
 
 type lcTopic struct {
@@ -73,6 +76,7 @@ type lcScn struct {
 	nburst  int
 	pending int32
 	base    int
+	leaked  int // goroutines diagnosed as parked for ever during this scenario (reported as hangs)
 }
 
 var lcSeq int64
@@ -162,6 +166,7 @@ func (ls *lcSess) record(m *ServerComMessage) {
 // writer mirrors Session.writeLoop (hdl_websock.go:84-145): send, detach, stop.
 func (ls *lcSess) writer() {
 	s := ls.s
+	defer atomic.StoreInt32(&ls.wexit, 1)
 	for {
 		select {
 		case resume := <-ls.stall:
@@ -225,6 +230,7 @@ func (ls *lcSess) reader() {
 				atomic.StoreInt32(&ls.cleaned, 1)
 				cleaned = true
 			} else {
+				ls.curKind.Store(r.kind)
 				atomic.StoreInt32(&ls.busy, 1)
 				s.dispatchRaw([]byte(ls.sc.reqJSON(ls, r)))
 				atomic.StoreInt32(&ls.busy, 0)
@@ -298,58 +304,172 @@ func (sc *lcScn) names() []string {
 	return ns
 }
 
+// goroutines which were diagnosed as parked for ever (a send on a nil channel, a receive from a
+// channel nobody will ever send to) and REPORTED as hangs; they are left out of later quiescence tests.
+var lcIgnore = map[string]bool{}
+
+type lcG struct {
+	id, state, text string
+}
+
+func lcGoroutines() []lcG {
+	buf := make([]byte, 4<<20)
+	n := runtime.Stack(buf, true)
+	var res []lcG
+	for i, g := range strings.Split(string(buf[:n]), "\n\n") {
+		if i == 0 {
+			continue // the caller
+		}
+		m := vGoroutineHdr.FindStringSubmatch(g)
+		if m == nil {
+			continue
+		}
+		st := m[2]
+		if j := strings.Index(st, ","); j >= 0 {
+			st = st[:j]
+		}
+		res = append(res, lcG{id: m[1], state: st, text: g})
+	}
+	return res
+}
+
+// lcSnapshot classifies the process: "busy" (some goroutine other than the caller can run: wait), "quiet"
+// (every goroutine is parked in a state from which only new input wakes it, hub/topic queues empty: sound
+// quiescence, as vQuiescent of the topic driver, with the ignore list) or "blocked" (every goroutine is parked
+// and at least one of them is parked in a send / lock / semaphore: nobody is left to wake it).
+func lcSnapshot(topics []string) (string, string) {
+	blocked := ""
+	for _, g := range lcGoroutines() {
+		if lcIgnore[g.id] {
+			continue
+		}
+		switch g.state {
+		case "select", "chan receive", "sleep", "IO wait", "sync.Cond.Wait", "select (no cases)",
+			"chan receive (nil chan)", "finalizer wait", "GC worker (idle)", "GC sweep wait", "GC scavenge wait",
+			"force gc (idle)", "debug call", "timer goroutine (idle)":
+		case "chan send", "chan send (nil chan)", "semacquire", "sync.Mutex.Lock", "sync.RWMutex.RLock", "sync.RWMutex.Lock",
+			"sync.WaitGroup.Wait":
+			blocked = "goroutine " + g.id + " " + g.state
+		default:
+			return "busy", "goroutine " + g.id + " " + g.state
+		}
+	}
+	if blocked != "" {
+		return "blocked", blocked
+	}
+	h := globals.hub
+	if len(h.join)+len(h.routeCli)+len(h.routeSrv)+len(h.meta)+len(h.unreg)+len(h.userStatus) > 0 {
+		return "busy", "hub queues"
+	}
+	for _, name := range topics {
+		if t := h.topicGet(name); t != nil {
+			if len(t.reg)+len(t.unreg)+len(t.clientMsg)+len(t.serverMsg)+len(t.meta)+len(t.exit) > 0 {
+				return "busy", "topic queues " + name
+			}
+			if t.supd != nil && len(t.supd) > 0 {
+				return "busy", "topic supd " + name
+			}
+		}
+	}
+	return "quiet", ""
+}
+
+func lcQuiescent(topics []string) (bool, string) {
+	st, why := lcSnapshot(topics)
+	return st == "quiet", why
+}
+
+// wait returns "" at sound quiescence with no request pending.  It returns "HANG ..." as soon as the
+// process is provably stuck - every goroutine parked, yet a request is pending or a goroutine sits in a
+// send / lock / semaphore - in many consecutive snapshots (no wall-clock guess), or after [limit] of
+// continuous activity.
 func (sc *lcScn) wait(limit time.Duration) string {
 	names := sc.names()
 	deadline := time.Now().Add(limit)
-	okCount := 0
+	okCount, stuckCount := 0, 0
 	why := ""
 	for time.Now().Before(deadline) {
 		runtime.Gosched()
-		if atomic.LoadInt32(&sc.pending) == 0 {
-			q, w := vQuiescent(names)
-			if q {
-				okCount++
-				if okCount >= 2 {
-					return ""
-				}
-				continue
+		st, w := lcSnapshot(names)
+		pend := atomic.LoadInt32(&sc.pending)
+		switch {
+		case st == "quiet" && pend == 0:
+			okCount++
+			stuckCount = 0
+			if okCount >= 2 {
+				return ""
 			}
+			continue
+		case st == "busy":
+			okCount, stuckCount = 0, 0
 			why = w
-		} else {
-			why = "requests pending"
+		default:
+			// all parked, but a request is pending or a goroutine is blocked
+			okCount = 0
+			stuckCount++
+			if st == "quiet" {
+				why = "requests pending"
+			} else {
+				why = w
+			}
+			if stuckCount >= 20 {
+				return "HANG " + why
+			}
+			time.Sleep(200 * time.Microsecond)
+			continue
 		}
-		okCount = 0
 		time.Sleep(50 * time.Microsecond)
 	}
-	return "HANG " + why
+	return "HANG timeout " + why
 }
 
-// blockedDump: the goroutines which are parked in a send / lock / wait-group, one line each.
+func lcWaitQuiet() {
+	deadline := time.Now().Add(20 * time.Second)
+	ok := 0
+	for time.Now().Before(deadline) && ok < 2 {
+		runtime.Gosched()
+		if q, _ := lcQuiescent(nil); q {
+			ok++
+		} else {
+			ok = 0
+			time.Sleep(50 * time.Microsecond)
+		}
+	}
+}
+
+func lcFns(g string, max int) string {
+	var fns []string
+	for _, l := range strings.Split(g, "\n")[1:] {
+		if !strings.HasPrefix(l, "\t") && !strings.HasPrefix(l, "created by") {
+			f := l
+			if i := strings.LastIndex(f, "("); i > 0 {
+				f = f[:i]
+			}
+			if j := strings.LastIndex(f, "/"); j >= 0 {
+				f = f[j+1:]
+			}
+			fns = append(fns, f)
+		}
+	}
+	if len(fns) > max {
+		fns = fns[:max]
+	}
+	return strings.Join(fns, "<")
+}
+
+// blockedDump: the goroutines which are parked in a send / lock / wait-group (or in the receive of
+// replyDelUser / stopTopicsForUser), one item each.
 func lcBlockedDump() string {
-	buf := make([]byte, 1<<20)
-	n := runtime.Stack(buf, true)
 	var res []string
-	for _, g := range strings.Split(string(buf[:n]), "\n\n") {
-		hdr := strings.SplitN(g, "\n", 2)[0]
+	for _, g := range lcGoroutines() {
+		if lcIgnore[g.id] {
+			continue
+		}
+		hdr := g.state
 		if strings.Contains(hdr, "chan send") || strings.Contains(hdr, "semacquire") || strings.Contains(hdr, "sync.Mutex") ||
-			strings.Contains(hdr, "sync.WaitGroup.Wait") || strings.Contains(hdr, "sync.RWMutex") {
-			var fns []string
-			for _, l := range strings.Split(g, "\n")[1:] {
-				if !strings.HasPrefix(l, "\t") && !strings.HasPrefix(l, "created by") {
-					f := l
-					if i := strings.LastIndex(f, "("); i > 0 {
-						f = f[:i]
-					}
-					if j := strings.LastIndex(f, "/"); j >= 0 {
-						f = f[j+1:]
-					}
-					fns = append(fns, f)
-				}
-			}
-			if len(fns) > 6 {
-				fns = fns[:6]
-			}
-			res = append(res, strings.ReplaceAll(hdr, " ", "_")+"@"+strings.Join(fns, "<"))
+			strings.Contains(hdr, "sync.WaitGroup.Wait") || strings.Contains(hdr, "sync.RWMutex") ||
+			(hdr == "chan receive" && (strings.Contains(g.text, "server.replyDelUser") || strings.Contains(g.text, "stopTopicsForUser"))) {
+			res = append(res, "goroutine_"+g.id+"_["+strings.ReplaceAll(hdr, " ", "_")+"]:@"+lcFns(g.text, 6))
 		}
 	}
 	return strings.Join(res, " | ")
@@ -361,27 +481,124 @@ func lcBlockedDump() string {
 // go on with the next scenario.
 func (sc *lcScn) waitAndRepair() {
 	for round := 0; round < 8; round++ {
-		h := sc.wait(1500 * time.Millisecond)
+		h := sc.wait(10 * time.Second)
 		if h == "" {
 			return
 		}
+		// a stalled writer stands for a socket write that blocks; the real write has a deadline
+		// (hdl_websock.go writeWait): let it expire before calling anything a hang
+		if sc.unstallAll() {
+			continue
+		}
 		fmt.Fprintf(sc.out, "hang %s :: %s\n", strings.ReplaceAll(h, " ", "_"), lcBlockedDump())
 		repaired := false
+		gs := lcGoroutines()
+		// (a) a goroutine of the server parked in a send on a nil channel: it stays for ever
+		for _, g := range gs {
+			if !lcIgnore[g.id] && g.state == "chan send (nil chan)" && !strings.Contains(g.text, "zz_verif") {
+				fmt.Fprintf(sc.out, "parked %s nil-chan-send %s\n", g.id, lcFns(g.text, 4))
+				lcIgnore[g.id] = true
+				sc.leaked++
+				repaired = true
+			}
+		}
+		// (b) a session blocked on its in-flight semaphore (Add in subscribe/leave, Wait in cleanUp)
 		for _, i := range sc.sessIdx() {
 			ls := sc.sess[i]
 			w := ls.s.inflightReqs
-			if atomic.LoadInt32(&ls.busy) != 0 && w != nil && len(w.sem) > 0 {
+			if atomic.LoadInt32(&ls.busy) != 0 && atomic.LoadInt32(&ls.dead) == 0 && w != nil && len(w.sem) > 0 {
 				fmt.Fprintf(sc.out, "unstuck %d\n", i)
 				w.Done()
 				repaired = true
 			}
 		}
+		// (c) {del user}: replyDelUser waits for stopTopicsForUser, which waits for a topic that will never answer
 		if !repaired {
+			var parked []lcG
+			for _, g := range gs {
+				if !lcIgnore[g.id] && g.state == "chan receive" &&
+					(strings.Contains(g.text, "server.replyDelUser") || strings.Contains(g.text, "stopTopicsForUser")) {
+					parked = append(parked, g)
+				}
+			}
+			if len(parked) > 0 {
+				for _, i := range sc.sessIdx() {
+					ls := sc.sess[i]
+					if k, _ := ls.curKind.Load().(string); k == "deluser" && atomic.LoadInt32(&ls.busy) != 0 && atomic.LoadInt32(&ls.dead) == 0 {
+						fmt.Fprintf(sc.out, "abandoned %d deluser-blocked\n", i)
+						atomic.StoreInt32(&ls.dead, 1)
+						atomic.AddInt32(&sc.pending, -1)
+						// what is queued behind the stuck request will never be read
+					drainq:
+						for {
+							select {
+							case r := <-ls.reqCh:
+								ls.mu.Lock()
+								ls.notsent = append(ls.notsent, r.rid)
+								ls.mu.Unlock()
+								atomic.AddInt32(&sc.pending, -1)
+							default:
+								break drainq
+							}
+						}
+						repaired = true
+					}
+				}
+				if repaired {
+					for _, g := range parked {
+						fmt.Fprintf(sc.out, "parked %s chan-receive %s\n", g.id, lcFns(g.text, 4))
+						lcIgnore[g.id] = true
+						sc.leaked++
+					}
+				}
+			}
+		}
+		// (d) a session whose writer has left and whose reader is blocked sending to the full stop channel
+		if !repaired {
+			for _, i := range sc.sessIdx() {
+				ls := sc.sess[i]
+				if atomic.LoadInt32(&ls.closed) != 0 && atomic.LoadInt32(&ls.busy) != 0 && len(ls.s.stop) > 0 {
+					select {
+					case <-ls.s.stop:
+						fmt.Fprintf(sc.out, "unblocked-stop %d\n", i)
+						repaired = true
+					default:
+					}
+				}
+			}
+		}
+		if !repaired {
+			// nothing recognisable: print every goroutine that is inside the server or a reader
+			var all []string
+			for _, g := range gs {
+				if !lcIgnore[g.id] && (strings.Contains(g.text, "lcSess).reader") || !strings.Contains(g.text, "zz_verif")) &&
+					!strings.Contains(g.text, "runLocal") && !strings.Contains(g.text, "(*Hub).run") && !strings.Contains(g.text, "testing.") {
+					all = append(all, "goroutine_"+g.id+"_["+strings.ReplaceAll(g.state, " ", "_")+"]:@"+lcFns(g.text, 8))
+				}
+			}
+			fmt.Fprintf(sc.out, "hang fatal pending=%d :: %s\n", atomic.LoadInt32(&sc.pending), strings.Join(all, " | "))
 			fmt.Fprintf(sc.out, "fatal-hang\n")
 			sc.out.Flush()
 			os.Exit(3)
 		}
 	}
+}
+
+func (sc *lcScn) unstallAll() bool {
+	any := false
+	for _, i := range sc.sessIdx() {
+		ls := sc.sess[i]
+		ls.mu.Lock()
+		ch := lcResume[ls]
+		delete(lcResume, ls)
+		ls.mu.Unlock()
+		if ch != nil {
+			close(ch)
+			fmt.Fprintf(sc.out, "autounstall %d\n", i)
+			any = true
+		}
+	}
+	return any
 }
 
 func (sc *lcScn) sessIdx() []int {
@@ -483,8 +700,13 @@ func (sc *lcScn) runBurst() {
 		if len(w) > 5 {
 			r.arg = w[5]
 		}
-		if ls := sc.sess[si]; ls != nil {
+		if ls := sc.sess[si]; ls != nil && atomic.LoadInt32(&ls.dead) == 0 {
 			ls.reqCh <- r
+		} else if ls != nil {
+			ls.mu.Lock()
+			ls.notsent = append(ls.notsent, r.rid)
+			ls.mu.Unlock()
+			atomic.AddInt32(&sc.pending, -1)
 		} else {
 			atomic.AddInt32(&sc.pending, -1)
 		}
@@ -525,9 +747,9 @@ func (sc *lcScn) dump() {
 		}
 		s.subsLock.RUnlock()
 		sort.Strings(subs)
-		fmt.Fprintf(sc.out, "state sess %d user=%d term=%d closed=%d cleaned=%d inflight=%d detachq=%d sendq=%d subs=%s\n", i, ls.user,
+		fmt.Fprintf(sc.out, "state sess %d user=%d term=%d closed=%d cleaned=%d inflight=%d detachq=%d sendq=%d dead=%d subs=%s\n", i, ls.user,
 			atomic.LoadInt32(&s.terminating), atomic.LoadInt32(&ls.closed), atomic.LoadInt32(&ls.cleaned), infl, len(s.detach), len(s.send),
-			strings.Join(subs, ","))
+			atomic.LoadInt32(&ls.dead), strings.Join(subs, ","))
 	}
 	for _, k := range sc.topicIdx() {
 		t := sc.topics[k]
@@ -586,6 +808,12 @@ func (sc *lcScn) finish() {
 		if ch != nil {
 			close(ch)
 		}
+		if atomic.LoadInt32(&ls.dead) != 0 {
+			if atomic.LoadInt32(&ls.wexit) == 0 {
+				sc.leaked++ // its writer stays (its reader is already counted)
+			}
+			continue
+		}
 		atomic.AddInt32(&sc.pending, 1)
 		ls.reqCh <- lcReq{rid: "fin", kind: "disc"}
 	}
@@ -602,13 +830,13 @@ func (sc *lcScn) finish() {
 	for _, i := range sc.sessIdx() {
 		close(sc.sess[i].reqCh)
 	}
-	h := sc.wait(3 * time.Second)
+	h := sc.wait(10 * time.Second)
 	if h != "" {
 		fmt.Fprintf(sc.out, "hang %s :: %s\n", strings.ReplaceAll(h, " ", "_"), lcBlockedDump())
 	}
 	n := 0
 	globals.hub.topics.Range(func(name, t any) bool { n++; return true })
-	fmt.Fprintf(sc.out, "final goroutines=%d baseline=%d loaded_topics=%d\n", runtime.NumGoroutine(), sc.base, n)
+	fmt.Fprintf(sc.out, "final goroutines=%d baseline=%d loaded_topics=%d leaked=%d\n", runtime.NumGoroutine(), sc.base, n, sc.leaked)
 }
 
 func TestVerifLifecycle(t *testing.T) {
@@ -640,7 +868,7 @@ func TestVerifLifecycle(t *testing.T) {
 			nscn++
 			sc = &lcScn{id: w[1], n: nscn, uids: map[int]types.Uid{}, uidIdx: map[types.Uid]int{}, topics: map[int]*lcTopic{},
 				sess: map[int]*lcSess{}, out: out}
-			vWaitQuiet(nil)
+			lcWaitQuiet()
 			sc.base = runtime.NumGoroutine()
 			fmt.Fprintf(out, "scn %s\n", w[1])
 		case "user":
